@@ -262,6 +262,8 @@ class Symbols:
             return self.resolve_name(modname, e.id)
         if isinstance(e, ast.Attribute):
             base = ev(e.value)
+            if e.attr == "__name__" and isinstance(base, Ref) and base.kind in ("pb", "class"):
+                return base.name
             if isinstance(base, Ref):
                 if base.kind == "class" and self.is_enum_class(base):
                     mem = self.enum_members(base) or {}
@@ -462,6 +464,14 @@ class Symbols:
                 fv = ev(fn)
                 if isinstance(fv, Ref) and fv.kind in ("pb", "class") and not (fv.kind == "class" and self.is_enum_class(fv)):
                     return Inst(fv)
+            if isinstance(fn, ast.Attribute) and not e.keywords and fn.attr in ("startswith", "endswith", "lower", "upper", "removeprefix", "removesuffix"):
+                base = ev(fn.value)
+                sargs = [ev(a) for a in e.args]
+                if isinstance(base, str) and all(isinstance(a, str) or (isinstance(a, tuple) and all(isinstance(x, str) for x in a)) for a in sargs):
+                    try:
+                        return getattr(base, fn.attr)(*sargs)
+                    except Exception:
+                        return Unknown
             if isinstance(fn, ast.Attribute) and not e.args and not e.keywords:
                 base = ev(fn.value)
                 if isinstance(base, dict):
